@@ -72,7 +72,7 @@ def run(prop, tier, replay=None):
         mc_info["MC_Explorer_unlocked_control.cfg"] = "NoTornRead violated, as it must be"
         print("TLC negative control: readers that do not take the lock violate NoTornRead in the model (expected)")
         rnd = random.Random("explorer-hammer-%d" % seed)
-        sets = fe.tlc_scenarios(work, ntlc, seed, "sets") + fe.gen_scenarios(seed, ngen, "sets") + [fe.hammer_scenario(rnd, *ham)]
+        sets = fe.tlc_scenarios(work, ntlc, seed, "sets") + fe.gen_scenarios(seed, ngen, "sets") + [fe.hammer_scenario(rnd, *ham, mode=m) for m in ("lookup", "current")]
         push = fe.tlc_scenarios(work, ntlc, seed, "push") + fe.gen_scenarios(seed, ngen, "push")
     for i, s in enumerate(sets + push):
         s["tid"] = i + 1
